@@ -87,10 +87,14 @@ IdxNext == /\ c.stage = 0
                          t |-> [pre |-> [i \in 1..pre |-> 200 + i], w |-> w,
                                 entries |-> [i \in 1..n |-> EntryOf(w, i)], tail |-> [i \in 1..tl |-> 255]]]
 IdxProbes(n) == <<0, 1, 2, 3, 4, 5, 1000>>
+(* 2^61, 2^62, 2^63, 2^61 + 1, 2^64 - 1, 2^32: index * entry size does not fit 64 bits for the first ones *)
+BigIdx == << <<0, 0, 0, 0, 0, 0, 0, 32>>, <<0, 0, 0, 0, 0, 0, 0, 64>>, <<0, 0, 0, 0, 0, 0, 0, 128>>, <<1, 0, 0, 0, 0, 0, 0, 32>>,
+             <<255, 255, 255, 255, 255, 255, 255, 255>>, <<0, 0, 0, 0, 1, 0, 0, 0>> >>
 IdxInv == (c.m = "idx" /\ c.stage = 1) =>
     PrintT(<<"CASE", ToJson([sys |-> "idx", kind |-> c.kind, le |-> c.le, w |-> c.t.w, base |-> Len(c.t.pre),
                              bytes |-> EncTable(c.t, c.le), probes |-> IdxProbes(0),
                              exp |-> [k \in 1..7 |-> TableGet(c.t, IdxProbes(0)[k])],
+                             big_probes |-> BigIdx, big_exp |-> [k \in DOMAIN BigIdx |-> TableGetBV(c.t, BigIdx[k])],
                              bad_base |-> ErrAny])>>)
 
 Modes == IF Mode = "all" THEN {"ar", "arhdr", "pub", "idx"} ELSE {Mode}
